@@ -226,10 +226,12 @@ DsVal model_ds(const std::string &name, const std::string &arg, CallCtx &c) {
     else if (name == "tid_kernel") v.text = std::to_string(w.tid_kernel + c.thr);
     else if (name == "cwd") { if (w.cwd_errno) { v.failed = true; v.text = ""; } else v.text = w.cwd; }
     else if (name == "hostname") v.text = w.hostname;
-    else if (name == "tty") v.text = w.tty_state == 2 ? w.tty_path : w.tty_state == 0 ? "(none)" : "ERROR(ttyname_r->EBADF)";
+    // a process that runs with descriptor 0 closed: while another thread of it has a file or socket open, that one sits on descriptor 0
+    // (lowest free number) and the answer for it is "not a terminal" - the descriptor table is shared, both answers are true to the state
+    else if (name == "tty") { v.text = w.tty_state == 2 ? w.tty_path : w.tty_state == 0 ? "(none)" : "ERROR(ttyname_r->EBADF)"; if (w.tty_state == 1 && c.threads_hi > 1) v.alts.push_back("(none)"); }
     else if (name == "tty_uid" || name == "tty_username") {
         if (w.tty_state == 0) v.text = "(none)";
-        else if (w.tty_state == 1) v.text = "ERROR(ttyname_r->EBADF)";
+        else if (w.tty_state == 1) { v.text = "ERROR(ttyname_r->EBADF)"; if (c.threads_hi > 1) v.alts.push_back("(none)"); }
         else if (w.tty_stat_errno) v.text = "ERROR(unable to stat() " + w.tty_path + ")";
         else if (name == "tty_uid") v.text = std::to_string(w.tty_uid);
         else v = user_name(w, w.tty_uid, true);
